@@ -156,7 +156,7 @@ class TokCfg:
 TOKCFGS = [
     TokCfg(
         "letters+synonyms",
-        r"(?P<SPACE>\s+)|(?P<A>a)|(?P<B>b)|(?P<C>c)|(?P<D>d)",
+        r"(?P<SPACE>\s+)|(?P<COMMENT>//.*)|(?P<A>a)|(?P<B>b)|(?P<C>c)|(?P<D>d)",
         ['a', 'b', 'c', 'd'],
         {'a': ['a'], 'b': ['b'], 'c': ['c'], 'd': ['d']},
         [" ", "  ", "\n", " \n  ", "\t"],
@@ -167,8 +167,8 @@ TOKCFGS = [
         r"""(?P<SPACE>\s+)|(?P<COMMENT>\#[^#\n]*\#)|(?P<W>[a-z]+)|(?P<NUM>[0-9]+)|(?P<SEMI>;)|"(?P<STR>[^"]*)\"""",
         ['WORD', 'IF', 'DO', 'n', ';', 'STR'],
         {'WORD': ['x', 'yy', 'iff', 'dodo', 'i', 'f'], 'IF': ['if'], 'DO': ['do'],
-         'n': ['0', '17', '007'], ';': [';'], 'STR': ['""', '"if"', '"a b"', '"#x#"']},
-        [" ", "\n", " # if do ; # ", "  ", "\n\n", " #1# #2# "],
+         'n': ['0', '17', '007'], ';': [';'], 'STR': ['""', '"if"', '"a b"', '"#x#"', '"p\x0cq"', '"u\u2028v if"']},
+        [" ", "\n", " # if do ; # ", "  ", "\n\n", " #1# #2# ", " #see\x0bpage 2 if# ", "\x0c"],
         synonyms={'NUM': 'n', 'SEMI': ';', 'W': 'WORD'},
         keywords={('WORD', 'if'): 'IF', ('WORD', 'do'): 'DO'},
     ),
